@@ -144,7 +144,7 @@ Ltac zb := repeat match goal with
   | |- context [(?a <? ?b)%nat] => destruct (Nat.ltb_spec a b)
   end.
 
-(* Array (with the repaired Array_Iter_Prev), List and Tree (in-order positions) *)
+(* Array (with the repaired Array_Iter_Prev) and List *)
 Lemma wb_index_gen f u xs
   (Hstart : forall d, it_start R f d u = OVal (arr_start d (zlen xs)))
   (Hval : forall i, cur_val u (CPos i) = oget (znth xs i))
@@ -183,13 +183,6 @@ Proof.
 Qed.
 
 Lemma wb_list f xs : wb f (IList xs) (chain_from 0 xs).
-Proof.
-  apply wb_index_gen; try reflexivity; intros i Hi; cbn [it_step]; unfold list_step, zlen.
-  - f_equal. zb; try lia; try reflexivity; do 2 f_equal; lia.
-  - f_equal. destruct i; zb; try lia; try reflexivity; do 2 f_equal; lia.
-Qed.
-
-Lemma wb_tree f xs : wb f (ITree xs) (chain_from 0 xs).
 Proof.
   apply wb_index_gen; try reflexivity; intros i Hi; cbn [it_step]; unfold list_step, zlen.
   - f_equal. zb; try lia; try reflexivity; do 2 f_equal; lia.
@@ -1256,12 +1249,6 @@ Proof.
   split; [|apply lg_list]. pose proof (wb_iterates _ _ _ (wb_list f xs)) as H.
   now rewrite chain_from_snd in H.
 Qed.
-Lemma tree_summary f xs : iterates f (ITree xs) xs /\ it_len R (ITree xs) = OVal (zlen xs).
-Proof.
-  split; [|reflexivity]. pose proof (wb_iterates _ _ _ (wb_tree f xs)) as H.
-  now rewrite chain_from_snd in H.
-Qed.
-
 Lemma range_summary f r : in_box r ->
   iterates f (IRange r) (map VInt (range_elems r)) /\ lg (IRange r) (map VInt (range_elems r)) /\
   length (range_elems r) = Z.to_nat (range_count r) /\
@@ -1468,7 +1455,7 @@ Lemma tab_first_shift slots : forall j,
 Proof.
   induction slots as [|[k|] r IH]; intros j; simpl; auto.
   - do 2 f_equal. lia.
-  - rewrite (IH (j + 1)), (IH 1). destruct (tab_first r 0) as [[k| | | | |]|]; auto. do 2 f_equal. lia.
+  - rewrite (IH (j + 1)), (IH 1). destruct (tab_first r 0) as [[k| | | | | |]|]; auto. do 2 f_equal. lia.
 Qed.
 
 Lemma tab_chain_split slots : forall i m c k, nth_error (tab_chain_from i slots) m = Some (c, k) ->
@@ -1535,7 +1522,7 @@ Proof.
       destruct (Z.eqb_spec (Z.of_nat (length (tab_chain_from 0 s))) 0) as [E0|E0].
       * destruct (tab_chain_from 0 s); [reflexivity|simpl in E0; lia].
       * f_equal. injection IH as IH. rewrite <- IH.
-        destruct (tab_first (rev s) 0) as [[k| | | | |]|]; auto. unfold zlen. rewrite ?app_length. cbn [length]. do 2 f_equal. lia.
+        destruct (tab_first (rev s) 0) as [[k| | | | | |]|]; auto. unfold zlen. rewrite ?app_length. cbn [length]. do 2 f_equal. lia.
   - intros m c k E. destruct (tab_chain_split _ _ _ _ _ E) as (p & -> & E1 & _).
     cbn [cur_val Nat.add]. now rewrite znth_nat, E1.
   - intros m c k E. destruct (tab_chain_split _ _ _ _ _ E) as (p & -> & E1 & E2 & _).
@@ -1680,4 +1667,161 @@ Proof.
     rewrite range_chain_snd. apply nth_error_nth.
     rewrite nth_error_map, range_elems_nth by (rewrite Hc; unfold zlen; lia).
     cbn [option_map]. do 2 f_equal. unfold range_val, r. cbn [r_start r_stop r_step]. change (0 <? 1) with true. cbv iota. lia.
+Qed.
+
+(* ------------------------------------------------------------------ Tree: the pointer walk over ANY binary tree *)
+(* in-order chain (d = Fwd) resp. reverse in-order chain (d = Bwd) of the subtree s sitting at reversed path rp *)
+Fixpoint tchain (d : dir) (s : tree) (rp : list tdir) : list (cur * val) :=
+  match s with
+  | TLeaf => []
+  | TNode l k r =>
+    match d with
+    | Fwd => tchain d l (TL :: rp) ++ (CNode rp, k) :: tchain d r (TR :: rp)
+    | Bwd => tchain d r (TR :: rp) ++ (CNode rp, k) :: tchain d l (TL :: rp)
+    end
+  end.
+
+Lemma tchain_bwd_rev s : forall rp, tchain Bwd s rp = rev (tchain Fwd s rp).
+Proof.
+  induction s as [|l IHl k r IHr]; intros rp; [reflexivity|]. cbn [tchain].
+  rewrite rev_app_distr. cbn [rev]. rewrite <- app_assoc. cbn [app]. now rewrite IHl, IHr.
+Qed.
+
+Lemma subtree_snoc T : forall p x, subtree T (p ++ [x]) = child x (subtree T p).
+Proof. intros p. revert T. induction p as [|d p IH]; intros T x; simpl; auto. Qed.
+
+Lemma node_at_cons T x rp : node_at T (x :: rp) = child x (node_at T rp).
+Proof. unfold node_at. cbn [rev]. apply subtree_snoc. Qed.
+
+Lemma tchain_first d s rp : s <> TLeaf ->
+  cur_at (tchain d s rp) 0 = Some (CNode (descend (near_of d) s rp)).
+Proof.
+  revert rp. induction s as [|l IHl k r IHr]; intros rp Hne; [congruence|].
+  destruct d; cbn [tchain near_of descend].
+  - destruct l as [|ll lk lr]; [reflexivity|].
+    assert (TNode ll lk lr <> TLeaf) as Hl by congruence. specialize (IHl (TL :: rp) Hl).
+    unfold cur_at in *. destruct (tchain Fwd (TNode ll lk lr) (TL :: rp)) eqn:E; [discriminate|]. exact IHl.
+  - destruct r as [|rl rk rr]; [reflexivity|].
+    assert (TNode rl rk rr <> TLeaf) as Hr by congruence. specialize (IHr (TR :: rp) Hr).
+    unfold cur_at in *. destruct (tchain Bwd (TNode rl rk rr) (TR :: rp)) eqn:E; [discriminate|]. exact IHr.
+Qed.
+
+Lemma tchain_leaf d rp : tchain d TLeaf rp = [].
+Proof. reflexivity. Qed.
+
+Definition texit (d : dir) (rp : list tdir) : option cur := option_map CNode (climb (near_of d) rp).
+Definition or_exit (o e : option cur) : option cur := match o with Some c => Some c | None => e end.
+
+Lemma cur_at_app_l (a b : list (cur * val)) i : (i < length a)%nat -> cur_at (a ++ b) i = cur_at a i.
+Proof. intros H. unfold cur_at. now rewrite nth_error_app1. Qed.
+Lemma cur_at_app_r (a b : list (cur * val)) i : (length a <= i)%nat -> cur_at (a ++ b) i = cur_at b (i - length a).
+Proof. intros H. unfold cur_at. now rewrite nth_error_app2. Qed.
+
+Lemma tstep_gen f d T : forall s rp, node_at T rp = s ->
+  forall i c v, nth_error (tchain d s rp) i = Some (c, v) ->
+    cur_val (ITree T) c = OVal v /\
+    it_step R f d (ITree T) c = OVal (or_exit (cur_at (tchain d s rp) (S i)) (texit d rp)).
+Proof.
+  induction s as [|l IHl k r IHr]; intros rp Hs i c v E; [destruct i; discriminate|].
+  (* near / far subtree according to the direction *)
+  set (near := near_of d). set (far := opp near).
+  assert (Hnear : node_at T (near :: rp) = child near (TNode l k r)) by (now rewrite node_at_cons, Hs).
+  assert (Hfar : node_at T (far :: rp) = child far (TNode l k r)) by (now rewrite node_at_cons, Hs).
+  assert (Hchain : tchain d (TNode l k r) rp =
+                   tchain d (child near (TNode l k r)) (near :: rp) ++ (CNode rp, k) ::
+                   tchain d (child far (TNode l k r)) (far :: rp)) by (destruct d; reflexivity).
+  assert (IHnear : forall i c v, nth_error (tchain d (child near (TNode l k r)) (near :: rp)) i = Some (c, v) ->
+            cur_val (ITree T) c = OVal v /\
+            it_step R f d (ITree T) c = OVal (or_exit (cur_at (tchain d (child near (TNode l k r)) (near :: rp)) (S i)) (texit d (near :: rp))))
+    by (destruct d; cbn [near_of opp child] in *; [apply IHl | apply IHr]; assumption).
+  assert (IHfar : forall i c v, nth_error (tchain d (child far (TNode l k r)) (far :: rp)) i = Some (c, v) ->
+            cur_val (ITree T) c = OVal v /\
+            it_step R f d (ITree T) c = OVal (or_exit (cur_at (tchain d (child far (TNode l k r)) (far :: rp)) (S i)) (texit d (far :: rp))))
+    by (destruct d; cbn [near_of opp child] in *; [apply IHr | apply IHl]; assumption).
+  clear IHl IHr. rewrite Hchain in *. clear Hchain.
+  set (A := tchain d (child near (TNode l k r)) (near :: rp)) in *.
+  set (B := tchain d (child far (TNode l k r)) (far :: rp)) in *.
+  assert (Hexn : texit d (near :: rp) = Some (CNode rp)).
+  { unfold texit. cbn [climb]. fold near. destruct near; reflexivity. }
+  assert (Hexf : texit d (far :: rp) = texit d rp).
+  { unfold texit. cbn [climb]. fold near. unfold far. destruct near; reflexivity. }
+  destruct (Nat.lt_ge_cases i (length A)) as [Hi|Hi].
+  - (* inside the near subtree *)
+    rewrite nth_error_app1 in E by auto. destruct (IHnear _ _ _ E) as [Hv Hst]. split; [exact Hv|].
+    rewrite Hst, Hexn. f_equal.
+    destruct (Nat.lt_ge_cases (S i) (length A)) as [Hi2|Hi2].
+    + rewrite cur_at_app_l by auto. destruct (cur_at A (S i)) eqn:Ec; [reflexivity|].
+      apply cur_at_none in Ec. lia.
+    + assert (cur_at A (S i) = None) as -> by (apply cur_at_none; lia).
+      rewrite cur_at_app_r by lia. replace (S i - length A)%nat with 0%nat by lia. reflexivity.
+  - rewrite nth_error_app2 in E by auto. destruct (i - length A)%nat as [|j] eqn:Ej.
+    + (* the node itself *)
+      cbn [nth_error] in E. inversion E; subst c v. split.
+      * cbn [cur_val]. now rewrite Hs.
+      * cbn [it_step]. unfold tree_step. fold near. fold far. rewrite Hs.
+        rewrite cur_at_app_r by lia. replace (S i - length A)%nat with 1%nat by lia.
+        change (cur_at ((CNode rp, k) :: B) 1) with (cur_at B 0).
+        destruct (child far (TNode l k r)) as [|cl ck cr] eqn:Ec.
+        -- unfold B. rewrite ?Ec. reflexivity.
+        -- unfold B. rewrite ?Ec. rewrite tchain_first by congruence. reflexivity.
+    + (* inside the far subtree *)
+      cbn [nth_error] in E. destruct (IHfar _ _ _ E) as [Hv Hst]. split; [exact Hv|].
+      rewrite Hst, Hexf. f_equal. rewrite cur_at_app_r by lia.
+      replace (S i - length A)%nat with (S (S j)) by lia. reflexivity.
+Qed.
+
+Lemma nth_error_rev {A} (l : list A) j : (j < length l)%nat ->
+  nth_error (rev l) j = nth_error l (length l - S j).
+Proof.
+  intros H. destruct (nth_error l (length l - S j)) eqn:E.
+  - assert (length l - S j < length l)%nat as H2 by lia.
+    rewrite (nth_error_nth' (rev l) a) by (rewrite rev_length; lia).
+    rewrite rev_nth by auto. f_equal. now apply nth_error_nth.
+  - apply nth_error_None in E. lia.
+Qed.
+
+Theorem wb_tree f T : wb f (ITree T) (tchain Fwd T []).
+Proof.
+  set (ch := tchain Fwd T []).
+  assert (Hb : tchain Bwd T [] = rev ch) by apply tchain_bwd_rev.
+  constructor.
+  - cbn [it_start]. unfold tree_start. destruct T as [|l k r]; [reflexivity|].
+    unfold ch. now rewrite tchain_first by congruence.
+  - cbn [it_start]. unfold tree_start. destruct T as [|l k r]; [reflexivity|].
+    pose proof (tchain_first Bwd (TNode l k r) [] ltac:(congruence)) as H1. rewrite Hb in H1.
+    f_equal. rewrite <- H1. unfold cur_at.
+    assert (0 < length ch)%nat as Hpos.
+    { destruct ch eqn:E; [|simpl; lia]. simpl in H1. discriminate. }
+    rewrite nth_error_rev by auto. destruct (length ch) as [|n]; [lia|]. cbn [cur_before]. unfold cur_at.
+    do 2 f_equal. lia.
+  - intros i c v E. exact (proj1 (tstep_gen f Fwd T T [] eq_refl i c v E)).
+  - intros i c v E. rewrite (proj2 (tstep_gen f Fwd T T [] eq_refl i c v E)). f_equal.
+    fold ch. unfold texit. cbn [climb option_map]. now destruct (cur_at ch (S i)).
+  - intros i c v E. assert (Hi : (i < length ch)%nat) by (apply nth_error_Some; congruence).
+    assert (E' : nth_error (tchain Bwd T []) (length ch - S i) = Some (c, v)).
+    { rewrite Hb, nth_error_rev by lia. replace (length ch - S (length ch - S i))%nat with i by lia. exact E. }
+    rewrite (proj2 (tstep_gen f Bwd T T [] eq_refl _ c v E')). f_equal.
+    unfold texit. cbn [climb option_map]. rewrite Hb. unfold cur_at.
+    destruct i as [|i]; cbn [cur_before].
+    + assert (nth_error (rev ch) (S (length ch - 1)) = None) as -> by (apply nth_error_None; rewrite rev_length; lia).
+      reflexivity.
+    + rewrite nth_error_rev by lia. replace (length ch - S (S (length ch - S (S i))))%nat with i by lia.
+      unfold cur_at. now destruct (nth_error ch i) as [[? ?]|].
+Qed.
+
+Fixpoint inorder (t : tree) : list val :=
+  match t with TLeaf => [] | TNode l k r => inorder l ++ k :: inorder r end.
+
+Lemma tchain_snd s : forall rp, map snd (tchain Fwd s rp) = inorder s.
+Proof.
+  induction s as [|l IHl k r IHr]; intros rp; [reflexivity|]. cbn [tchain inorder].
+  rewrite map_app. cbn [map snd]. now rewrite IHl, IHr.
+Qed.
+
+Lemma tree_summary f T : iterates f (ITree T) (inorder T) /\ it_len R (ITree T) = OVal (zlen (inorder T)).
+Proof.
+  split.
+  - pose proof (wb_iterates _ _ _ (wb_tree f T)) as H. now rewrite tchain_snd in H.
+  - cbn [it_len]. unfold zlen. f_equal. f_equal. induction T as [|l IHl k r IHr]; [reflexivity|].
+    cbn [tree_size inorder]. rewrite app_length. cbn [length]. lia.
 Qed.
